@@ -430,11 +430,15 @@ def order_laws(tier, seed):
                      'types after promotion; untypedAtomic pairs; types without order; XSD 1.1 dateTimeStamp', 'rule': 'distinct = (type, operator, form, order class of the pair)'}
 
 
+_REPLAY_CACHE = {}
+
+
 def _replay_expr_c07(f):
     print('replay: re-running the bounded check for', f.get('key'))
     for fn_ in (xpath10_comparisons, order_laws):
-        r = fn_('quick', 0)
-        if any(x['key'] == f.get('key') for x in r['failures']):
+        if fn_.__name__ not in _REPLAY_CACHE:         # one re-run per process serves every recorded failure
+            _REPLAY_CACHE[fn_.__name__] = fn_('quick', 0)
+        if any(x['key'] == f.get('key') for x in _REPLAY_CACHE[fn_.__name__]['failures']):
             return False
     return True
 
